@@ -211,6 +211,125 @@ theorem sendable_clientOf_member : ∀ (ms cs : List (String × DType F)) (k : S
     · cases h
 end
 
+/-! ### the value set of the rebuilt type -/
+
+theorem snapFix_snap {scale lo : F} (h : SnapFix scale lo) : DType.snap scale lo = some lo := by
+  unfold SnapFix IsSome at h
+  cases hs : DType.snap scale lo with
+  | none => rw [hs] at h; exact h.elim
+  | some y =>
+    rw [hs] at h
+    simp only at h
+    rw [(WireLaws.same_iff _ _).mp h]
+
+theorem between_clientScaled {scale min max ar rr x : F} {c : DType F}
+    (hl : (∀ lo, DType.snap scale min = some lo → SnapFix scale lo) ∧ (∀ hi, DType.snap scale max = some hi → SnapFix scale hi))
+    (h : clientScaled scale min max ar rr = some c) (hb : BetweenSnapped scale min max x) :
+    ∃ a b, c = .scaled scale a b ar rr ∧ BetweenSnapped scale a b x := by
+  unfold clientScaled at h
+  cases hgmin : DType.gridIndex scale min with
+  | none => simp [hgmin] at h
+  | some kmin =>
+    cases hgmax : DType.gridIndex scale max with
+    | none => simp [hgmin, hgmax] at h
+    | some kmax =>
+      cases hamin : (ofInt kmin : Option F) with
+      | none => simp [hgmin, hgmax, hamin] at h
+      | some a =>
+        cases hamax : (ofInt kmax : Option F) with
+        | none => simp [hgmin, hgmax, hamin, hamax] at h
+        | some b =>
+          simp only [hgmin, hgmax, hamin, hamax, Option.some.injEq] at h
+          have hsmin : DType.snap scale min = some (mul a scale) := by simp [DType.snap, hgmin, DType.ofGrid, hamin]
+          have hsmax : DType.snap scale max = some (mul b scale) := by simp [DType.snap, hgmax, DType.ofGrid, hamax]
+          have h1 := snapFix_snap (hl.1 _ hsmin)
+          have h2 := snapFix_snap (hl.2 _ hsmax)
+          refine ⟨mul a scale, mul b scale, h.symm, ?_⟩
+          simp only [BetweenSnapped, hsmin, hsmax] at hb
+          simp only [BetweenSnapped, h1, h2]
+          exact hb
+
+mutual
+/-- where the snapped limits are on the grid, a valid value of the node's type is a valid value of the rebuilt type -/
+theorem valid_clientOf : ∀ (dt c : DType F) (v : PVal F), LimitsOnGrid dt → clientOf dt = some c → Valid dt v → Valid c v
+  | .double .., c, v, _, h, hv => by simp only [clientOf] at h; cases h; exact hv
+  | .int .., c, v, _, h, hv => by simp only [clientOf] at h; cases h; exact hv
+  | .bool, c, v, _, h, hv => by simp only [clientOf] at h; cases h; exact hv
+  | .enum _, c, v, _, h, hv => by simp only [clientOf] at h; cases h; exact hv
+  | .string .., c, v, _, h, hv => by simp only [clientOf] at h; cases h; exact hv
+  | .blob .., c, v, _, h, hv => by simp only [clientOf] at h; cases h; exact hv
+  | .scaled scale min max ar rr, c, v, hl, h, hv => by
+    simp only [clientOf] at h
+    simp only [LimitsOnGrid] at hl
+    cases v <;> simp only [Valid, InSetG] at hv <;> try exact hv.elim
+    case float x =>
+      obtain ⟨a, b, rfl, hb⟩ := between_clientScaled hl h hv.2
+      simp only [Valid, InSetG]
+      exact ⟨hv.1, hb⟩
+  | .array elem lo hi, c, v, hl, h, hv => by
+    simp only [clientOf] at h
+    simp only [LimitsOnGrid] at hl
+    split at h
+    · rename_i e he
+      cases h
+      cases v <;> simp only [Valid, InSetG] at hv ⊢ <;> try exact hv
+      exact ⟨fun x hx => valid_clientOf elem e x hl he (hv.1 x hx), hv.2⟩
+    · cases h
+  | .tuple elems, c, v, hl, h, hv => by
+    simp only [clientOf] at h
+    simp only [LimitsOnGrid] at hl
+    split at h
+    · rename_i es hes
+      cases h
+      cases v <;> simp only [Valid, InSetG] at hv ⊢ <;> try exact hv
+      exact valid_clientOf_list elems es _ hl hes hv
+    · cases h
+  | .struct ms opt cl, c, v, hl, h, hv => by
+    simp only [clientOf] at h
+    simp only [LimitsOnGrid] at hl
+    split at h
+    · rename_i cs hcs
+      cases h
+      have hk := clientOfFields_keys ms cs hcs
+      cases v <;> simp only [Valid, InSetG] at hv ⊢ <;> try exact hv
+      rw [hk]
+      exact ⟨fun kv hkv => valid_clientOf_member ms cs kv.1 kv.2 hl hcs (hv.1 kv hkv), hv.2⟩
+    · cases h
+theorem valid_clientOf_list : ∀ (ts cs : List (DType F)) (vs : List (PVal F)), LimitsOnGridList ts → clientOfList ts = some cs →
+    ZipInG SnapFix ts vs → ZipInG SnapFix cs vs
+  | [], cs, vs, _, h, hv => by simp only [clientOfList] at h; cases h; exact hv
+  | t :: ts, cs, vs, hl, h, hv => by
+    simp only [clientOfList] at h
+    simp only [LimitsOnGridList] at hl
+    split at h
+    · rename_i c cs' hc hcs
+      cases h
+      cases vs with
+      | nil => simp [ZipInG] at hv
+      | cons v vs =>
+        simp only [ZipInG] at hv ⊢
+        exact ⟨valid_clientOf t c v hl.1 hc hv.1, valid_clientOf_list ts cs' vs hl.2 hcs hv.2⟩
+    · cases h
+theorem valid_clientOf_member : ∀ (ms cs : List (String × DType F)) (k : String) (v : PVal F), LimitsOnGridFields ms →
+    clientOfFields ms = some cs → MemberInG SnapFix ms k v → MemberInG SnapFix cs k v
+  | [], cs, k, v, _, h, hv => by simp only [clientOfFields] at h; cases h; exact hv
+  | (k', t) :: ms, cs, k, v, hl, h, hv => by
+    simp only [clientOfFields] at h
+    simp only [LimitsOnGridFields] at hl
+    split at h
+    · rename_i c cs' hc hcs
+      cases h
+      simp only [MemberInG] at hv ⊢
+      split
+      · rename_i e
+        simp only [e, if_true] at hv
+        exact valid_clientOf t c v hl.1 hc hv
+      · rename_i e
+        simp only [e, if_false] at hv
+        exact valid_clientOf_member ms cs' k v hl.2 hcs hv
+    · cases h
+end
+
 /-! ### `from_string (to_string v)` at the top of the tree (strings, enum names and bools are bare texts there) -/
 
 theorem text_rt (lib : TextLib F) (hl : TextLib.Lawful lib) (dt : DType F) (hwf : WFT dt)
